@@ -48,8 +48,34 @@ def analyse(lines):
         k = rest[0]
         if k == "openlock":
             toks.append("o%d" % c)
+        elif k == "flock" and rest[1] == "trying":
+            toks.append(("try", c))          # placeholder: where a failing attempt is ordered
         elif k == "flock" and rest[1] == "lock":
             ok = rest[2] == "ok"
+            # a failed attempt is ordered at its start (it may have been decided before an
+            # unlock whose log line precedes the attempt's result line); a successful one at its end
+            ph = [i for i, t in enumerate(toks) if t == ("try", c)]
+            if ph:
+                if not ok:
+                    # the failure was decided somewhere between the attempt's two log lines:
+                    # order it at the first point of that interval at which somebody holds the lock
+                    start = ph[-1]
+                    del toks[start]
+                    pos = start
+                    for i in range(start, len(toks) + 1):
+                        h = None
+                        for t in toks[:i]:
+                            if isinstance(t, str):
+                                if t[0] == "t" and t.endswith("+"):
+                                    h = t
+                                elif t[0] == "d":
+                                    h = None
+                        if h is not None:
+                            pos = i
+                            break
+                    toks.insert(pos, "t%d-" % c)
+                    continue
+                del toks[ph[-1]]
             if ok and pending_drop:
                 # the real unlock lies between its "unlock" (before the call) and "unlocked"
                 # (after it) log lines: a successful attempt in between comes after it
@@ -85,6 +111,7 @@ def analyse(lines):
                 toks.append("x%d" % c)
     for pc in pending_drop:
         toks.append("d%d" % pc)
+    toks = [t for t in toks if isinstance(t, str)]
     return toks, problems, stats
 
 
